@@ -87,7 +87,10 @@ class World:
                 return [(None, st)]
             if name == "rglob":
                 return [(st.alloc(HObj("list", items=[vpath(f"{W.zdir}/{n}") for n in W.files])), st)]
-            if name in ("resolve", "absolute", "expanduser"):
+            if name == "resolve":
+                # the notes directory is reached through a symlink in this world: resolving changes the prefix
+                return [(vpath(p if p.startswith("/REAL") else "/REAL" + p), st)]
+            if name in ("absolute", "expanduser"):
                 return [(recv, st)]
             if name == "stat":
                 return [(Opaque("vstat", p), st)]
@@ -217,7 +220,10 @@ class World:
 
     # ------------------------------------------------------------------ objects
     def rel(self, p: str) -> str:
-        return p[len(self.zdir) + 1:] if p.startswith(self.zdir + "/") else p
+        for pre in (self.zdir, "/REAL" + self.zdir):
+            if p.startswith(pre + "/"):
+                return p[len(pre) + 1:]
+        return p
 
     def new_page(self, st: State, name: str) -> Ref:
         return st.alloc(HObj("obj", cls="zorg.domain.models._page.Page", fields=dict(
